@@ -39,7 +39,9 @@ def sign_chain(ctx, tr, keys, shape, inp_path, ops, via="lib", origin=""):
     name = "s0"
     for n, (action, key, alg, kid) in enumerate(ops):
         out = d / f"{inp_path.stem}_o{n}.suit"
-        err = signrun.sign_single(cur, out, keys, key, kid, alg, action, via=via)
+        # every third single-operation scenario finds an earlier signing of the same input (other key id, Ed25519) at its output path
+        stale = ("ked", (kid + 1) & 0xFFFFFFFF, "eddsa") if (n == 0 and len(ops) == 1 and (kid + len(key)) % 3 == 1) else None
+        err = signrun.sign_single(cur, out, keys, key, kid, alg, action, via=via, stale=stale)
         written = out.exists()
         e = project.project_env((out if written else cur).read_bytes(), tr.terms, keys.pub)
         nxt = f"s{n + 1}"
